@@ -572,6 +572,8 @@ class World:
         def _type(ex, args, kwargs):
             if len(args) != 1:
                 raise Unsupported("3-argument type()")
+            if isinstance(args[0], VIter) and args[0].ik in ("values", "keys", "items"):
+                return w.classes.of_py({"values": type({}.values()), "keys": type({}.keys()), "items": type({}.items())}[args[0].ik])
             return ex.class_of(args[0])
 
         @fn("repr")
@@ -922,6 +924,8 @@ class World:
                 return obj.fields[name]
             if name == "formatted_message":
                 return VStr(ex.fresh("msg", S))
+            if name == "__class__":
+                return obj.cls
             if ex.spec_mode and obj.fields.get("__abstract__"):
                 # an exception raised by a contracted callee: attributes are unconstrained (memoised)
                 if name == "errors":
@@ -1456,7 +1460,79 @@ class World:
             if kind in ("list", "gen"):
                 return VTup(out, "list") if kind == "gen" else self.ext.list_from_items(ex, out) if out else self.ext.new_list(ex)
             return VTup(out, "set")
-        raise Unsupported("comprehension over a symbolic iterable (needs a spec function)")
+        # symbolic iterable: cut by an element specification from the contract (the analogue of a loop
+        # invariant): `comprehensions = {ordinal: "lambda x: <spec of the element built from x>"}`.
+        con = frame.contract
+        comps = getattr(con, "comprehensions", None) or {}
+        ordinal = self._comp_ordinal(frame, node)
+        text = comps.get(ordinal)
+        if text is None or gen.ifs:
+            raise Unsupported("comprehension #%s over a symbolic iterable needs an element spec in the contract" % ordinal)
+        tree = self.parse_clause(text)
+
+        def rel(item, res):
+            """the element relation of the contract: lambda <targets...>, r: <bool>"""
+            sf = Frame(frame.fsrc, dict(frame.env), contract=frame.contract, closure=frame.closure)
+            sf.old = frame.old
+            sf.is_spec = True
+            saved = ex.spec_mode
+            ex.spec_mode = True
+            try:
+                fn = ex.eval(tree, sf)
+                args = list(item.items) if (isinstance(item, VTup) and isinstance(gen.target, ast.Tuple)) else [item]
+                return ex.truthy(ex.call(fn, args + [res], {}))
+            finally:
+                ex.spec_mode = saved
+        which = ex.choose([z3.BoolVal(True), z3.BoolVal(True)])
+        if which == 0:
+            k = ex.fresh("kc", I)
+            ex.assume(z3.And(k >= 0, k < view.n))
+            item = view.get(ex, k)
+            fr = Frame(frame.fsrc, dict(frame.env), contract=frame.contract, closure=frame.closure)
+            fr.old = frame.old
+            ex.assign(gen.target, item, fr)
+            if kind == "dict":
+                kv = ex.eval(node.key, fr)
+                v = ex.eval(node.value, fr)
+                ex.oblige("comp-elt", "key_kept#%s" % ordinal, self.ext.is_(ex, kv, item.items[0]), exit_text="comprehension#%s" % ordinal,
+                          clause="the key expression is the key itself")
+            else:
+                v = ex.eval(node.elt, fr)
+            goal = rel(item, v)
+            ex.oblige("comp-elt", "element_spec#%s" % ordinal, goal, exit_text="comprehension#%s" % ordinal, clause=text)
+            raise PathEnd()
+        ex.alloc_count = getattr(ex, "alloc_count", 0) + 1
+        if kind == "dict":
+            m = it.parts[0] if isinstance(it, VIter) else it
+            if not isinstance(m, VMap):
+                raise Unsupported("dict comprehension over %r" % (it,))
+            vals = ex.fresh("comp_vals", sym.ARR)
+            ex.assume(ex.forall(0, m.n, lambda i: rel(view.get(ex, i), VObj(z3.Select(vals, i)))))
+            r = VMap(m.keys, vals, m.n, ref=ex.fresh("comp_ref", V))
+            ex.assume(r.ref != sym.NONE)
+            ex.created.add(id(r))
+            ex.keep.append(r)
+            return r
+        arr = ex.fresh("comp_arr", sym.ARR)
+        ex.assume(ex.forall(0, view.n, lambda i: rel(view.get(ex, i), VObj(z3.Select(arr, i)))))
+        r = VSeq("list" if kind in ("list", "gen") else "set", arr, view.n)
+        ex.created.add(id(r))
+        ex.keep.append(r)
+        return r
+
+    def _comp_ordinal(self, frame, node):
+        table = getattr(frame, "comp_table", None)
+        if table is None:
+            table = frame.comp_table = {}
+            fnode = getattr(frame.fsrc, "node", None)
+            n = 0
+            if fnode is not None:
+                for x in ast.walk(fnode):
+                    if isinstance(x, (ast.ListComp, ast.SetComp, ast.DictComp, ast.GeneratorExp)):
+                        table[id(x)] = (x.lineno, x.col_offset)
+                order = sorted(table.items(), key=lambda kv: kv[1])
+                table = frame.comp_table = {k: i for i, (k, _) in enumerate(order)}
+        return table.get(id(node))
 
     # ------------------------------------------------------------ spec builtins
     def spec_builtin(self, name, ex, frame):
